@@ -1,6 +1,7 @@
 package main
 
 import (
+	"syscall"
 	"encoding/json"
 	"fmt"
 	"os"
@@ -225,6 +226,28 @@ func streamZones(c *ctx) {
 					} else if !time.Time(st.SystemDateTime).Equal(t) {
 						res += " STATUS:" + fieldsOf(time.Time(st.SystemDateTime))
 					}
+					// ... and so must the same datagram delivered as an event through the listener
+					ul, dl := newClient(nil, types.BroadcastAddr{})
+					dl.Datagrams = [][]byte{b}
+					rec := &recorder{}
+					q := make(chan os.Signal, 1)
+					done := make(chan error, 1)
+					go func() { done <- ul.Listen(rec, q) }()
+					for w := time.Now().Add(time.Second); rec.count() < 2 && time.Now().Before(w); {
+						time.Sleep(100 * time.Microsecond)
+					}
+					q <- syscall.SIGINT
+					select {
+					case <-done:
+					case <-time.After(2 * time.Second):
+					}
+					rec.mu.Lock()
+					if len(rec.status) != 1 {
+						res += fmt.Sprintf(" LISTEN:%d-events", len(rec.status))
+					} else if !time.Time(rec.status[0].SystemDateTime).Equal(t) {
+						res += " LISTEN:" + fieldsOf(time.Time(rec.status[0].SystemDateTime))
+					}
+					rec.mu.Unlock()
 				}
 				return res
 			})
